@@ -20,6 +20,10 @@ pub struct MemoryAreas {
   pub oam_dma: Option<DMAState>,
   /// Last value written to the OAM DMA register (0xff46)
   oam_dma_register: u8,
+  /// Set whenever a cartridge register write maps a different ROM bank at
+  /// 0x4000-0x7fff. Translated code running from that region watches it, so
+  /// that it stops executing bytes of a bank that is no longer mapped.
+  pub rom_bank_changed: bool,
 
   rom_mapped: bool,
 }
@@ -70,6 +74,7 @@ impl MemoryAreas {
 
       oam_dma: None,
       oam_dma_register: 0,
+      rom_bank_changed: false,
 
       rom_mapped: false,
     }
@@ -103,6 +108,7 @@ impl MemoryAreas {
       io: IO::new(),
       oam_dma: None,
       oam_dma_register: 0,
+      rom_bank_changed: false,
 
       rom_mapped: true,
     }
@@ -260,7 +266,11 @@ pub extern "sysv64" fn memory_write_byte(areas: *mut MemoryAreas, addr: u16, val
   crate::verif::bus_event(crate::verif::BUS_WRITE, addr, value);
   let memory_areas: &mut MemoryAreas = unsafe { &mut *areas };
   if addr < 0x8000 { // ROM Banks
+    let previous_bank = memory_areas.cart_state.get_rom_bank();
     memory_areas.cart_state.write_rom(addr, value);
+    if memory_areas.cart_state.get_rom_bank() != previous_bank {
+      memory_areas.rom_bank_changed = true;
+    }
     return;
   }
   if addr < 0xa000 { // VRAM
